@@ -8,6 +8,7 @@ regenerated into `ConfModel.Generated.C03Facts.grace` on every run).
 import ConfModel.Lemmas.Assert
 import ConfModel.Model.AssertPath
 import ConfModel.Lemmas.AssertSeq
+import ConfModel.Model.AssertLib
 namespace ConfModel.Props.C03
 open ConfModel.Assert ConfModel.Agree
 
@@ -538,6 +539,66 @@ example :
       = some ⟨false, some (.discrepancies [.payloadData 3])⟩ ∧
     listedFailed (run 500 ([.assert "s/a" .serverStream [] e bad] ++ .assert "s/a" .serverStream [] e e :: post)) "s/a" = false ∧
     listedFailed (run 500 ([.assert "s/a" .serverStream [] e bad] ++ .assert "s/a" .serverStream [] e e :: post)) "s/b" = true := by
+  decide
+
+/-! ### The definition `assert` is given: the permutations of the library (`Model/AssertLib.lean`) -/
+
+open ConfModel.AssertLib in
+/-- **Copies preserve the verdict.** The copy of a test case that runs against a gRPC reference
+implementation (`markCopy`: a clone whose name gets the marker) is judged exactly as its original,
+for every reported result. -/
+theorem copy_preserves_verdict (g : Int) (m : Marker) (d : Def) (a : Result) :
+    verdictOf g (markCopy m d) a = verdictOf g d a := rfl
+
+open ConfModel.AssertLib in
+/-- Every object of `allPermutations` — the originals and the client / server / both copies —
+carries the definition of one of the library's originals and is judged as that original. -/
+theorem perm_verdict_of_original (g : Int) (ds : List Def) (c s : Bool) (p : Def)
+    (hp : p ∈ allPermutations ds c s) :
+    ∃ d ∈ ds, p.st = d.st ∧ p.other = d.other ∧ p.expected = d.expected ∧
+      ∀ a, verdictOf g p a = verdictOf g d a := by
+  have hcopy : ∀ m, p ∈ copies m ds → ∃ d ∈ ds, p.st = d.st ∧ p.other = d.other ∧ p.expected = d.expected ∧
+      ∀ a, verdictOf g p a = verdictOf g d a := by
+    intro m hm
+    unfold copies at hm
+    obtain ⟨d, hd, rfl⟩ := List.mem_map.mp hm
+    exact ⟨d, (List.mem_filter.mp hd).1, rfl, rfl, rfl, fun _ => rfl⟩
+  unfold allPermutations at hp
+  simp only [List.mem_append] at hp
+  rcases hp with ((hp | hp) | hp) | hp
+  · exact ⟨p, hp, rfl, rfl, rfl, fun _ => rfl⟩
+  · by_cases hc : c = true
+    · rw [if_pos hc] at hp; exact hcopy _ hp
+    · rw [if_neg hc] at hp; cases hp
+  · by_cases hs : s = true
+    · rw [if_pos hs] at hp; exact hcopy _ hp
+    · rw [if_neg hs] at hp; cases hp
+  · by_cases hb : (c && s) = true
+    · rw [if_pos hb] at hp; exact hcopy _ hp
+    · rw [if_neg hb] at hp; cases hp
+
+open ConfModel.AssertLib in
+/-- … hence, under `WellFormed`, a permutation passes iff the reported result `Agree`s with the
+definition of the suite entry it was made from — with ITS list of alternative codes. -/
+theorem perm_passes_iff_agree (g : Int) (ds : List Def) (c s : Bool) (p : Def) (a : Result)
+    (hp : p ∈ allPermutations ds c s) (hw : ∀ d ∈ ds, WellFormed d.expected a) :
+    ∃ d ∈ ds, (verdictOf g p a = [] ↔ Agree g d.st d.other d.expected a) := by
+  obtain ⟨d, hd, _, _, _, hv⟩ := perm_verdict_of_original g ds c s p hp
+  exact ⟨d, hd, by rw [hv a]; exact assert_nil_iff g d.st d.other d.expected a (hw d hd)⟩
+
+open ConfModel.AssertLib in
+/-- non-vacuity, and the witness that the definition matters: a case expecting `deadline_exceeded`
+(4) that also allows `canceled` (1), eligible for both kinds of copy, answered with `canceled`:
+all four permutations pass; the same copy WITHOUT its alternative codes reports the code. -/
+example :
+    let e : Result := ⟨[], [], some ⟨4, none, []⟩, [], 0, none⟩
+    let a : Result := ⟨[], [], some ⟨1, none, []⟩, [], 0, none⟩
+    let d : Def := ⟨"s/case", .unary, [1], e, true, true⟩
+    (allPermutations [d] true true).length = 4 ∧
+    (∀ p ∈ allPermutations [d] true true, verdictOf 500 p a = []) ∧
+    WellFormed d.expected a ∧
+    verdictOf 500 (dropOther (markCopy .server d)) a = [.code] ∧
+    verdictOf 500 (dropOther (markCopy .server d)) a ≠ verdictOf 500 (markCopy .server d) a := by
   decide
 
 end ConfModel.Props.C03
